@@ -1032,6 +1032,10 @@ package ion
 //@ split returns
 //@ modifies *
 //@ counts (*bufstack).push
+// a failure to write the symbol table or to emit the buffered values is returned (C19)
+//@ counts (*binaryWriter).writeLST
+//@ counts (*binaryWriter).emit
+//@ ensures[C12,C19] vcFailed("(*binaryWriter).writeLST")+vcFailed("(*binaryWriter).emit") > 0 ==> err != nil
 //@ atcall[C04,C12] (*binaryWriter).writeLST len(w.annotations) == 0 && w.fieldName == nil
 //@ ensures[C12,C19] old(w.err) != nil ==> err == old(w.err) && w.err == old(w.err)
 //@ ensures[C12] err == nil && old(w.err) == nil && old(len(w.bufs.arr)) > 0 && old(w.bufs.arr[len(w.bufs.arr)-1]) != nil ==> vcCalls("(*bufstack).push") == 1
@@ -1198,17 +1202,22 @@ package ion
 // enough that they are called by contract (no frame claim, no postcondition: the caller
 // assigns whatever they return to w.err).
 
-//@ func (*textWriter).beginValue
-//@ modifies *
-
 //@ func (*textWriter).endValue
 //@ modifies *
 
 //@ func (*textWriter).begin
 //@ modifies *
+//@ counts (*textWriter).beginValue
+//@ counts writeRawChar
+//@ ensures[C12,C19] vcFailed("(*textWriter).beginValue")+vcFailed("writeRawChar") > 0 ==> err != nil
+//@ ensures[C12,C19] vcFailed("(*textWriter).beginValue")+vcFailed("writeRawChar") <= 1
 
 //@ func (*textWriter).end
 //@ modifies *
+//@ counts writeRawChar
+//@ counts (*textWriter).writeIndent
+//@ ensures[C12,C19] vcFailed("writeRawChar")+vcFailed("(*textWriter).writeIndent") > 0 ==> err != nil
+//@ ensures[C12,C19] vcFailed("writeRawChar")+vcFailed("(*textWriter).writeIndent") <= 1
 
 //@ func (*binaryWriter).beginValue
 //@ split returns
@@ -1871,6 +1880,17 @@ package ion
 //@ invariant-assumed loop0 [i int] i < 1<<62
 //@ invariant loop1 [i int] 0 <= i
 //@ atcall[C06,C17] (reflect.Value).Index :: reflect.Value, int :: 0 <= a1 && a1 < a0.Len()
+// A field is found by its exact name if there is one, whatever the order of the fields; only
+// when no field has the exact name does the first field that matches ignoring case stand in
+// (two fields that differ only in case are different fields, C16).
+//@ func findField
+//@ modifies nothing
+//@ invariant loop0 [f *field] f == nil || strings.EqualFold(f.name, name)
+//@ invariant loop0 [idx_ int] forall j int :: 0 <= j && j <= idx_ ==> fields[j].name != name
+//@ ensures[C16,C17] forall j int :: 0 <= j && j < len(fields) && fields[j].name == name ==> result != nil && result.name == name
+//@ ensures[C16,C17] result != nil ==> result.name == name || strings.EqualFold(result.name, name)
+//@ safe[C06]
+
 //@ func indirect
 //@ modifies reflect.memory
 //@ invariant loop0 true
@@ -2442,5 +2462,41 @@ package ion
 // The text writer sets the pending field name and annotations aside before it writes its
 // symbol table through itself: they belong to the value, not to the table (C04, C01).
 //@ func (*textWriter).beginValue
+//@ split returns
 //@ modifies *
 //@ atcall[C01,C04] SymbolTable.WriteTo :: SymbolTable, Writer :: len(w.annotations) == 0 && w.fieldName == nil
+// a failed write of the separator, the indentation, the field name or the annotations is
+// returned (the caller makes it the writer's sticky error): nothing is written after it (C19, C12)
+//@ counts (*textWriter).writeSeparator
+//@ counts writeRawChar
+//@ counts (*textWriter).writeIndent
+//@ counts (*textWriter).writeFieldName
+//@ counts (*textWriter).writeAnnotations
+//@ ensures[C12,C19] vcFailed("(*textWriter).writeSeparator")+vcFailed("writeRawChar")+vcFailed("(*textWriter).writeIndent")+vcFailed("(*textWriter).writeFieldName")+vcFailed("(*textWriter).writeAnnotations") > 0 ==> err != nil
+//@ ensures[C12,C19] vcFailed("(*textWriter).writeSeparator")+vcFailed("writeRawChar")+vcFailed("(*textWriter).writeIndent")+vcFailed("(*textWriter).writeFieldName")+vcFailed("(*textWriter).writeAnnotations") <= 1
+
+// The pieces of a value's prologue and epilogue report the first failed write and write
+// nothing after it (C19).
+//@ func (*textWriter).writeFieldName
+//@ split returns
+//@ modifies *
+//@ counts writeSymbol
+//@ counts writeRawString
+//@ ensures[C12,C19] vcFailed("writeSymbol")+vcFailed("writeRawString") > 0 ==> err != nil
+//@ ensures[C12,C19] vcFailed("writeSymbol")+vcFailed("writeRawString") <= 1
+//@ ensures[C12] old(w.fieldName) == nil ==> err != nil
+
+//@ func (*textWriter).writeAnnotations
+//@ modifies *
+//@ counts writeSymbol
+//@ counts writeRawString
+//@ invariant loop0 vcFailed("writeSymbol") == 0 && vcFailed("writeRawString") == 0
+//@ ensures[C12,C19] vcFailed("writeSymbol")+vcFailed("writeRawString") > 0 ==> err != nil
+//@ ensures[C12,C19] vcFailed("writeSymbol")+vcFailed("writeRawString") <= 1
+
+//@ func (*textWriter).writeIndent
+//@ modifies *
+//@ counts writeRawChar
+//@ invariant loop0 vcFailed("writeRawChar") == 0
+//@ ensures[C12,C19] vcFailed("writeRawChar") > 0 ==> err != nil
+//@ ensures[C12,C19] vcFailed("writeRawChar") <= 1
